@@ -51,40 +51,43 @@ def openUnbalanced (t : Bytes) (pos : Nat) : Bool :=
 def hasSub (needle hay : Bytes) : Bool :=
   (List.range (hay.length + 1)).any (fun i => needle.isPrefixOf (hay.drop i))
 
+/-- the fault an error of `parse_template` names, as a condition on the expansion text it carries -/
+def localFault : TErr → Bool
+  | .missingLeadingSlash t => t.head? != some 47
+  | .emptyBraces t p => t[p]? == some 123 && t[p + 1]? == some 125
+  | .unbalancedBrace t p =>
+    (match t[p]? with
+      | some 123 => openUnbalanced t p
+      | some 125 => true
+      | _ => false)
+  | .emptyParameter t s l => (match braceParam t s l with | some c => (rawNameOf c).isEmpty | none => false)
+  | .emptyWildcard t s l => (match braceParam t s l with | some c => rawNameOf c == [42] | none => false)
+  | .emptyConstraint t s l => (match braceParam t s l with | some c => consOf c == some [] | none => false)
+  | .invalidParameter t n s l =>
+    (match braceParam t s l with
+      | some c => nameOf c == n && n.any (invalidChars.contains ·)
+      | none => false)
+  | .invalidConstraint t n s l =>
+    (match braceParam t s l with
+      | some c => consOf c == some n && n.any (invalidChars.contains ·)
+      | none => false)
+  | .touchingParameters t s l =>
+    s + l ≤ t.length && l ≥ 4 && t[s]? == some 123 && t[s + l - 1]? == some 125 && hasSub [125, 123] ((t.drop s).take l)
+  | .duplicateParameter t n f fl s sl =>
+    f + fl ≤ s &&
+      (match braceParam t f fl, braceParam t s sl with
+       | some c1, some c2 => nameOf c1 == n && nameOf c2 == n
+       | _, _ => false)
+  | _ => false
+
 def faultPresent (input : Bytes) (err : TErr) : Bool :=
   let inExps (t : Bytes) : Bool :=
     match topExpansions input with | some es => es.contains t | none => false
   match err with
   | .empty => input.isEmpty
-  | .missingLeadingSlash t => inExps t && t.head? != some 47
   | .emptyParentheses t p =>
     t == input && t[p]? == some 40 && t[p + 1]? == some 41 && (escMask t)[p]? == some false && (escMask t)[p + 1]? == some false
   | .unbalancedParenthesis t p => t == input && (unmatchedParens t).contains p
-  | .emptyBraces t p => inExps t && t[p]? == some 123 && t[p + 1]? == some 125
-  | .unbalancedBrace t p =>
-    inExps t && (match t[p]? with
-      | some 123 => openUnbalanced t p
-      | some 125 => true
-      | _ => false)
-  | .emptyParameter t s l =>
-    inExps t && (match braceParam t s l with | some c => (rawNameOf c).isEmpty | none => false)
-  | .emptyWildcard t s l =>
-    inExps t && (match braceParam t s l with | some c => rawNameOf c == [42] | none => false)
-  | .emptyConstraint t s l =>
-    inExps t && (match braceParam t s l with | some c => consOf c == some [] | none => false)
-  | .invalidParameter t n s l =>
-    inExps t && (match braceParam t s l with
-      | some c => nameOf c == n && n.any (invalidChars.contains ·)
-      | none => false)
-  | .invalidConstraint t n s l =>
-    inExps t && (match braceParam t s l with
-      | some c => consOf c == some n && n.any (invalidChars.contains ·)
-      | none => false)
-  | .touchingParameters t s l =>
-    inExps t && s + l ≤ t.length && l ≥ 4 && t[s]? == some 123 && t[s + l - 1]? == some 125 &&
-      hasSub [125, 123] ((t.drop s).take l)
-  | .duplicateParameter t n f fl s sl =>
-    inExps t && f + fl ≤ s &&
-      (match braceParam t f fl, braceParam t s sl with
-       | some c1, some c2 => nameOf c1 == n && nameOf c2 == n
-       | _, _ => false)
+  | .missingLeadingSlash t | .emptyBraces t _ | .unbalancedBrace t _ | .emptyParameter t _ _ | .emptyWildcard t _ _
+  | .emptyConstraint t _ _ | .invalidParameter t _ _ _ | .invalidConstraint t _ _ _ | .touchingParameters t _ _
+  | .duplicateParameter t _ _ _ _ _ => inExps t && localFault err
